@@ -72,8 +72,7 @@ func Match(fingerprint, target any) bool {
 			return false
 		}
 	case float32, float64:
-		f0, _ := asFloat(fp)
-		if f1, ok := asFloat(target); !ok || f0 != f1 {
+		if !sameAsFloat(fp, target) {
 			return false
 		}
 	case string:
@@ -141,8 +140,7 @@ func diff(v0, v1 any, one bool, ignores ...Path) (diffs []Path) {
 			diffs = append(diffs, Path{nil})
 		}
 	case float32, float64:
-		f0, _ := asFloat(v0)
-		if f1, ok := asFloat(v1); !ok || f0 != f1 {
+		if !sameAsFloat(v0, v1) {
 			diffs = append(diffs, Path{nil})
 		}
 	case string:
@@ -318,6 +316,20 @@ func asInt(v any) (i int64, ok bool) {
 		ok = false
 	}
 	return
+}
+
+// sameAsFloat compares a float with another number. An integer is compared as
+// an integer since not every int64 has a float64 of its own.
+func sameAsFloat(f, v any) bool {
+	switch v.(type) {
+	case int, int8, int16, int32, int64, uint, uint8, uint16, uint32, uint64, gen.Int:
+		i0, ok := asInt(f)
+		i1, _ := asInt(v)
+		return ok && i0 == i1
+	}
+	f0, _ := asFloat(f)
+	f1, ok := asFloat(v)
+	return ok && f0 == f1
 }
 
 func asFloat(v any) (f float64, ok bool) {
